@@ -2,6 +2,7 @@ package evict
 
 import (
 	"fmt"
+	"os"
 	"sort"
 
 	"volcano.sh/volcano/pkg/scheduler/api"
@@ -104,6 +105,20 @@ func Harness() vh.Harness {
 			limits := w.QueueLimits()
 			w.RunActions()
 			choices := w.Reconstruct()
+			if os.Getenv("C04_DEBUG") != "" {
+				for i, e := range w.Trace {
+					fmt.Fprintf(os.Stderr, "%3d %+v\n", i, e)
+				}
+				for _, c := range choices {
+					fmt.Fprintf(os.Stderr, "choice kind=%d first=%v job=%d [%d,%d)\n", c.Kind, c.First, c.Job, c.From, c.To)
+					for _, g := range c.Groups {
+						fmt.Fprintf(os.Stderr, "  task %d\n", g.Task)
+						for _, a := range g.Atts {
+							fmt.Fprintf(os.Stderr, "    att node=%d cands=%v order=%v pip=%d\n", a.Node, a.Cands, a.Order, a.Pipelined)
+						}
+					}
+				}
+			}
 			modelIn := spec.Enc()
 			modelIn = append(modelIn, limits...)
 			base := len(modelIn)
@@ -164,7 +179,11 @@ func Harness() vh.Harness {
 		law(101, last.evidence, "")
 		law(102, last.evidence, "")
 		law(103, last.evidence, "")
-		law(104, last.evidence, SigFallThrough)
+		sig := ""
+		if last.multiTier {
+			sig = SigFallThrough
+		}
+		law(104, last.evidence, sig)
 	}
 	gen := func(rng *vh.Rng, n int, emit func(id string, sel int, in []int64, kind string, nontrivial bool, desc any)) {
 		for i := 0; i < n; i++ {
